@@ -332,7 +332,7 @@ class Package:
         mod, _, qual = short.partition(".")
         m = self.module(mod)
         if qual not in m.units:
-            alt = self._fallback(short)
+            alt = self._unit_or_none(short)
             if alt is not None:
                 return alt
             raise AnalysisError(f"anchored function {short} is missing")
@@ -343,7 +343,10 @@ class Package:
         name = f"{PKG}.{mod}"
         if name in self.modules and qual in self.modules[name].units:
             return True
-        return self._fallback(short) is not None
+        try:
+            return self._unit_or_none(short) is not None
+        except AnalysisError:
+            return False
 
     # (anchor, public unit that uses it, kind of the helper, selector among several candidates)
     ANCHOR_FALLBACKS = {
@@ -356,6 +359,7 @@ class Package:
         "itertools._repeat": ("itertools.zip_longest", "asyncgen", 0),
         "itertools.chain._chain_iterator": ("itertools.chain.__init__", "asyncgen", 0),
         "heapq._KeyIter.from_iters": ("heapq.merge", "asyncgen", 0),
+        "_core._aiter_sync": ("_core.aiter", "asyncgen", 0),
     }
 
     def _fallback(self, short: str) -> Optional[Unit]:
@@ -423,12 +427,69 @@ class Package:
             return False
         return u.qualname in names
 
+    # private classes found again structurally when renamed: (anchor -> where it is referenced,
+    # index among the private library classes referenced there, in source order)
+    CLASS_FALLBACKS = {
+        "heapq._KeyIter": ("heapq.merge", 0),
+        "asynctools._BorrowedAsyncIterator": ("asynctools.borrow", 0),
+        "asynctools._ScopedAsyncIteratorContext": ("asynctools.scoped_iter", 0),
+        "asynctools._ScopedAsyncIterator": ("asynctools._ScopedAsyncIteratorContext.__aenter__", 0),
+        "functools._FutureCachedPropertyValue": ("functools.CachedProperty.__get__", 0),
+        "contextlib._AsyncGeneratorContextManager": ("contextlib.contextmanager", 0),
+        "itertools._GroupByState": ("itertools.GroupBy.__init__", 0),
+        "itertools._Grouper": ("itertools.GroupBy.__anext__", 0),
+    }
+
     def cls(self, short: str) -> ClassInfo:
         mod, _, name = short.partition(".")
         m = self.module(mod)
         if name not in m.classes:
+            alt = self._class_fallback(short)
+            if alt is not None:
+                return alt
             raise AnalysisError(f"anchored class {short} is missing")
         return m.classes[name]
+
+    def _class_fallback(self, short: str, _depth: int = 0) -> Optional[ClassInfo]:
+        spec = self.CLASS_FALLBACKS.get(short)
+        if spec is None or _depth > 3:
+            return None
+        user, index = spec
+        try:
+            uu = self._unit_or_none(user, _depth + 1)
+        except AnalysisError:
+            return None
+        if uu is None:
+            return None
+        m = uu.module
+        found: List[ClassInfo] = []
+        nodes = sorted((n for n in ast.walk(uu.node) if isinstance(n, ast.Name) and isinstance(n.ctx, ast.Load)),
+                       key=lambda n: (n.lineno, n.col_offset))
+        for n in nodes:
+            res = self.resolve_global(m, n.id)
+            if res.kind == "lib" and isinstance(res.node, ast.ClassDef):
+                info = self.lib_class(res.qual)
+                if info is not None and info.module is m and info.name.startswith("_") and info not in found:
+                    found.append(info)
+        return found[index] if index < len(found) else None
+
+    def _unit_or_none(self, short: str, _depth: int = 0) -> Optional[Unit]:
+        mod, _, qual = short.partition(".")
+        m = self.modules.get(f"{PKG}.{mod}")
+        if m is None:
+            return None
+        if qual in m.units:
+            return m.units[qual]
+        cname, _, meth = qual.rpartition(".")
+        if cname and "." not in cname:
+            info = m.classes.get(cname) or self._class_fallback(f"{mod}.{cname}", _depth)
+            if info is not None and meth in info.methods:
+                return info.methods[meth]
+        return self._fallback(short)
+
+    def cls_name(self, short: str) -> str:
+        """The actual (possibly renamed) name of an anchored class."""
+        return self.cls(short).name
 
     def all_units(self) -> List[Unit]:
         out = []
